@@ -224,4 +224,41 @@ theorem mem_keys_foldl_insert (k : String) (m acc : List (String × α)) :
         · exact Or.inl h
         · exact Or.inr (Or.inl h)
 
+theorem mem_insert (k : String) (v : α) (l : List (String × α)) (p : String × α) (h : p ∈ DictRow.insert k v l) :
+    p = (k, v) ∨ p ∈ l := by
+  induction l with
+  | nil => simp [DictRow.insert] at h; exact Or.inl h
+  | cons q qs ih =>
+    obtain ⟨k', v'⟩ := q
+    simp only [DictRow.insert] at h
+    by_cases hk : k' = k
+    · simp only [hk, if_true, List.mem_cons] at h
+      rcases h with h | h
+      · exact Or.inl h
+      · exact Or.inr (List.mem_cons_of_mem _ h)
+    · simp only [hk, if_false, List.mem_cons] at h
+      rcases h with h | h
+      · exact Or.inr (by rw [h]; exact List.mem_cons_self ..)
+      · rcases ih h with h | h
+        · exact Or.inl h
+        · exact Or.inr (List.mem_cons_of_mem _ h)
+
+theorem mem_foldl_insert (m acc : List (String × α)) (p : String × α)
+    (h : p ∈ m.foldl (fun a q => DictRow.insert q.1 q.2 a) acc) : p ∈ acc ∨ p ∈ m := by
+  induction m generalizing acc with
+  | nil => exact Or.inl h
+  | cons q qs ih =>
+    rcases ih _ h with h | h
+    · rcases mem_insert _ _ _ _ h with h | h
+      · exact Or.inr (by rw [h]; exact List.mem_cons_self ..)
+      · exact Or.inl h
+    · exact Or.inr (List.mem_cons_of_mem _ h)
+
+/-- every item of the dictionary view is a (field, cell) pair of the row -/
+theorem asDict_values_mem (fields : List String) (row : List α) (p : String × α) (h : p ∈ asDict fields row) :
+    p.2 ∈ row := by
+  rcases mem_foldl_insert _ [] p h with h | h
+  · cases h
+  · exact (List.of_mem_zip h).2
+
 end C02
